@@ -721,6 +721,17 @@ package ugo
 //@ modifies *
 //@ property C06
 
+// The try opcodes keep the invariant (a new handler remembers the current,
+// non-negative stack pointer).
+//@ func+ (*VM).xOpSetupTry, (*VM).xOpSetupCatch, (*VM).xOpSetupFinally
+//@ requires vmLoopInv($recv)
+//@ ensures[inv] vmFrameInv($recv)
+//@ ensures[sp] $recv.sp >= 0
+//@ panics vmPanicPoint($recv)
+//@ split returns preds
+//@ modifies *
+//@ property C06
+
 // A call opcode, successful or not, leaves the interpreter invariant intact
 // (in particular a rejected call leaves the frame index alone).
 //@ func+ (*VM).xOpCall, (*VM).xOpCallName, (*VM).xOpCallAny, (*VM).xOpCallCompiled, (*VM).xOpCallObject, (*VM).xOpCallExCaller
